@@ -356,6 +356,15 @@ pub fn c11_cases(ctx: &Ctx) -> Vec<C11Case> {
                 }
             }
         }
+        // tall parameter lists (total height around and beyond 64) with a small top tree: keygen only
+        // generates the top tree, so these are cheap -- and must not fail arithmetically
+        for tail in [vec![25u32, 25, 10], vec![25, 25, 5, 5], vec![25, 25, 15], vec![25, 25, 25], vec![20, 20, 20, 10], vec![25, 25, 25, 25, 25, 25, 25], vec![10, 10, 10, 10, 10, 10, 5]] {
+            for top in [2u32, 5] {
+                let mut l = vec![p(4, top)];
+                l.extend(tail.iter().map(|h| p(8, *h)));
+                cases.push(C11Case::Keygen { hid, params: l, aux_len: None, aux_fill: 0 });
+            }
+        }
         // keygen with every aux length around the header and every fill
         for params in [vec![p(4, 2)], vec![p(4, 5), p(4, 2)]] {
             let full = m.aux_layout(m.lms_h(params[0].lms).unwrap(), 1 << 20).1;
